@@ -264,6 +264,21 @@ pub fn to_value(v: &V) -> Value {
     }
 }
 
+/// Product value -> model cell (the `budget` part re-reads the table after a refused statement).
+pub fn from_value(v: &Value) -> Option<V> {
+    Some(match v {
+        Value::Null => V::Null,
+        Value::Int(i) => V::I(*i),
+        Value::Float(f) => V::F(Fl(*f)),
+        Value::String(s) => V::S(s.clone()),
+        Value::Bool(b) => V::B(*b),
+        Value::Bytes(y) => V::Y(y.clone()),
+        Value::Json(j) => V::J(j.to_string()),
+        #[allow(unreachable_patterns)]
+        _ => return None,
+    })
+}
+
 /// Bit-exact comparison of a model cell with a product value.
 pub fn same_cell(m: &V, got: &Value) -> bool {
     match (m, got) {
